@@ -60,6 +60,9 @@ func (e *exec) fireNext() {
 		e.now = t.when
 	}
 	e.fire(t)
+	if e.hb != nil {
+		e.hb.clock(t.seq, e.now)
+	}
 }
 
 //go:norace
